@@ -3,8 +3,8 @@ package gen
 import (
 	"fmt"
 
-	pb "github.com/ipfs/boxo/ipld/unixfs/pb"
 	"github.com/gogo/protobuf/proto"
+	pb "github.com/ipfs/boxo/ipld/unixfs/pb"
 	"github.com/ipfs/go-cid"
 
 	"verif/harness/model"
@@ -45,16 +45,16 @@ func in(ch ...HandNode) HandNode { return HandNode{Children: ch} }
 // positions).
 func HandShapes() map[string]HandNode {
 	return map[string]HandNode{
-		"2":          in(l(3, 1), l(3, 2)),
-		"3":          in(l(3, 1), l(3, 2), l(2, 3)),
-		"2x2":        in(in(l(3, 1), l(3, 2)), in(l(3, 3), l(1, 4))),
-		"2x2+1":      in(in(l(3, 1), l(3, 2)), in(l(3, 3), l(3, 4)), l(2, 5)),
-		"1+2":        in(l(3, 1), in(l(3, 2), l(3, 3))),
-		"2x1":        in(in(l(3, 1), l(3, 2)), in(l(3, 3))),
+		"2":           in(l(3, 1), l(3, 2)),
+		"3":           in(l(3, 1), l(3, 2), l(2, 3)),
+		"2x2":         in(in(l(3, 1), l(3, 2)), in(l(3, 3), l(1, 4))),
+		"2x2+1":       in(in(l(3, 1), l(3, 2)), in(l(3, 3), l(3, 4)), l(2, 5)),
+		"1+2":         in(l(3, 1), in(l(3, 2), l(3, 3))),
+		"2x1":         in(in(l(3, 1), l(3, 2)), in(l(3, 3))),
 		"3-empty-mid": in(l(3, 1), l(0, 2), l(3, 3)),
 		"3-empty-end": in(l(3, 1), l(3, 2), l(0, 3)),
-		"2x2-empty":  in(in(l(3, 1), l(0, 2)), in(l(0, 3), l(3, 4))),
-		"deep":       in(in(in(l(3, 1), l(3, 2)), in(l(3, 3))), in(in(l(2, 4)))),
+		"2x2-empty":   in(in(l(3, 1), l(0, 2)), in(l(0, 3), l(3, 4))),
+		"deep":        in(in(in(l(3, 1), l(3, 2)), in(l(3, 3))), in(in(l(2, 4)))),
 	}
 }
 
